@@ -7,7 +7,7 @@ cp /verif/sim/target/release/sim /verif/sim/target/sim-sweep-copy; SIM=/verif/si
 bad=0
 for s in $(seq "$A" "$B"); do
   for e in srcsim c12 c13; do
-    out=$(VERIF_REPLAYS=/verif/sim/target/sweep-replays VERIF_SCRATCH=/verif/sim/target/sweep-scratch $SIM run $e --tier $TIER --seed $s 2>&1); rc=$?
+    out=$(VERIF_MIRI="${VERIF_MIRI:-0}" VERIF_REPLAYS=/verif/sim/target/sweep-replays VERIF_SCRATCH=/verif/sim/target/sweep-scratch $SIM run $e --tier $TIER --seed $s 2>&1); rc=$?
     if [ $rc != 0 ]; then echo "seed=$s engine=$e rc=$rc"; echo "$out" | tail -4; bad=1; fi
   done
   echo "seed $s done"
